@@ -51,6 +51,9 @@ func c10Run(c *fw.Case, env *fw.Env) *fw.Obs {
 	if p.Shadow {
 		class += "/name-suffix-of-another-branch"
 	}
+	if p.Peel > 0 {
+		class += "/target-below-branch"
+	}
 	args := netArgs(w, &p)
 	out := runNetOp(w, &p, args)
 	o.Ev("oracle_evaluations", 1)
@@ -287,6 +290,11 @@ func init() {
 			for i, ff := range []string{"", "no-ff", "ff-only"} {
 				l.Add("merge", netParams{Op: "merge", N: 8, BaseRows: 4, Branches: 1, Rel: "remote-behind", FF: ff}, int64(1001+i))
 				l.Add("merge", netParams{Op: "merge", N: 8, BaseRows: 4, Branches: 1, Rel: "remote-ahead", FF: ff}, int64(1011+i))
+			}
+			// the merge target spelled as "a commit below the branch": whatever wrgl does with it, the branch may only
+			// move forward along its own history
+			for i, rel := range []string{"diverged", "remote-ahead", "diverged", "remote-behind", "diverged", "remote-ahead"} {
+				l.Add("merge", netParams{Op: "merge", N: 9, BaseRows: 4, Branches: 1, Rel: rel, Peel: 1 + i%2, FF: []string{"", "", "ff-only"}[i%3]}, int64(1081+i))
 			}
 			for i, rel := range []string{"remote-ahead", "diverged", "remote-behind", "diverged", "remote-ahead", "diverged"} {
 				l.Add("merge", netParams{Op: "merge", N: 8, BaseRows: 4, Branches: 1, Rel: rel, Shadow: true, FF: []string{"", "no-ff"}[i%2]}, int64(1071+i))
